@@ -883,8 +883,26 @@ class BeartypeConf(object):
             # If this method has already instantiated a configuration with these
             # parameters, return that configuration for consistency and
             # efficiency.
-            if conf_args in _beartype_conf_args_to_conf:
-                return _beartype_conf_args_to_conf[conf_args]
+            #
+            # Note that dictionary lookup compares keys by equality rather than
+            # type. Since invalid parameters may compare equal to valid
+            # parameters (e.g., "is_debug=1" and "is_debug=True"), a previously
+            # cached configuration is returned *ONLY* if the types of all
+            # parameters passed to this call are exactly those of the parameters
+            # that configuration was cached under. All other parameters
+            # (including unhashable and thus invalid parameters) are validated
+            # below as if *NO* configuration had been cached.
+            try:
+                conf_cached = _beartype_conf_args_to_conf.get(conf_args)
+            except TypeError:
+                conf_cached = None
+
+            if (
+                conf_cached is not None and
+                tuple(map(type, conf_cached._conf_args)) == (
+                    tuple(map(type, conf_args)))
+            ):
+                return conf_cached
             # Else, this method has *NOT* yet instantiated a configuration with
             # these parameters. In this case, continue to do so and then cache
             # that configuration.
